@@ -13,9 +13,9 @@ mv tests/demo_seed.rs /tmp/demo_seed_$id.rs
 suite=$(cargo test --workspace --no-fail-fast --offline 2>&1 | grep -E "^test result" | awk '{p+=$4; f+=$6} END {print p" passed, "f" failed"}')
 mv /tmp/demo_seed_$id.rs tests/demo_seed.rs
 with=$(cargo test --offline --test demo_seed 2>&1 | grep -E "^test result" | head -1)
-git stash -q -- src
+git diff -- src > $wt/out/.intake.diff; git checkout -- src
 without=$(cargo test --offline --test demo_seed 2>&1 | grep -E "^test result" | head -1)
-git stash pop -q
+git apply $wt/out/.intake.diff
 echo "suite with change: $suite"; echo "demo with change: $with"; echo "demo without change: $without"
 git diff -- src > $out/patch.diff
 cp tests/demo_seed.rs $out/demo_seed.rs
